@@ -4,6 +4,7 @@
 Orgs2 == {0, 1}
 Orgs3 == {0, 1, 2}
 IndexNames == {"a", "ab", "b"}
+IndexNamesPrefix == {"a", "ab"}
 AliasNames == {"al"}
 ExprsAll == {"a", "ab", "b", "al", "a*", "*", "a,b"}
 Terms(e) == IF e = "a,b" THEN {"a", "b"} ELSE {e}
